@@ -299,7 +299,9 @@ fn codepoint() -> impl Strategy<Value = u32> {
     prop_oneof![4 => 0x20u32..0x7f, 3 => 0xa0u32..0xd7ff, 1 => 0xe000u32..0xffff, 2 => 0x10000u32..0x10ffff, 1 => Just(0x1F600u32)]
 }
 fn map_strategy() -> impl Strategy<Value = MapCase> {
-    (proptest::collection::vec((any::<u16>(), proptest::collection::vec(codepoint(), 1..4)), 0..20), proptest::collection::vec((any::<u16>(), 2u8..12, proptest::collection::vec(codepoint(), 1..3)), 0..5)).prop_map(|(entries, runs)| MapCase { entries, runs })
+    // codes are biased towards the ends of the code space and the one-byte / two-byte boundary
+    let code = || prop_oneof![6 => any::<u16>(), 2 => 65520u16..=65535, 1 => 0u16..4, 1 => 250u16..262];
+    (proptest::collection::vec((code(), proptest::collection::vec(codepoint(), 1..4)), 0..20), proptest::collection::vec((code(), 2u8..12, proptest::collection::vec(codepoint(), 1..3)), 0..5)).prop_map(|(entries, runs)| MapCase { entries, runs })
 }
 
 /// model map from a MapCase: single entries plus runs of consecutive codes (each with its own text)
